@@ -54,6 +54,9 @@ def obligations(tier):
         L.append(ob("posE/pre=0/k=4/str=1/raw=1", "jsontext", "VerifC16PosE", [0, 4, 1, 1, False], covers=["accepted", "rejected", "nested"]))
         L.append(ob("posE/pre=4/k=2/allowdup", "jsontext", "VerifC16PosE", [4, 2, 2, 3, True], covers=["accepted", "rejected", "nested"]))
 
+    # semE: SemanticError offset/pointer for one conversion error at a solver-chosen slot (typed Unmarshal)
+    L.append(ob("semE/one-conversion-error", ".", "VerifC16SemE", [], covers=["conversion-error", "acceptable"], max_seconds=600))
+
     only = os.environ.get("C16_ONLY")  # development aid: run a subset
     if only:
         L = [o for o in L if any(s in o["id"] for s in only.split(","))]
@@ -75,8 +78,10 @@ _COMMON = (
     "JSONPointer = innermost container open at ByteOffset or its direct child there (member whose name was read and whose value is due; "
     "next array element after '[' or ','), for ErrDuplicateName container + '/' + escaped name. "
     "ptr: IsValid == RFC 6901 validity; for valid p Tokens/LastToken/Parent/AppendToken/Contains against reference split/join/escape. "
-    "OUTSIDE the bound: the SemanticError clause of C16 (Unmarshal conversion errors are produced by reflection-driven arshalers the engine "
-    "cannot execute) and Unmarshal-into-any positions; streaming mode (io.Reader refills: covered for agreement with buffer mode by C05); "
+    "semE: real Unmarshal into a struct with int8/[]int8/map[string]bool/nested struct/pointer/uint8 map fields (reflect environment model): one "
+    "solver-chosen slot of a fixed document gets a solver-chosen wrong-kind or out-of-range value; the SemanticError's JSONPointer and ByteOffset "
+    "must designate exactly that value (member name with '~' or '/' included). "
+    "OUTSIDE the bound: SemanticError positions for other type graphs and more than one error; Unmarshal-into-any positions; streaming mode (io.Reader refills: covered for agreement with buffer mode by C05); "
     "SkipValue/PeekKind interleavings; legacy error offsets (ReportErrorsWithLegacySemantics); non-default encoder options (indentation, "
     "escaping flags); depth > 4; strings with \\u escapes or non-ASCII bytes in decoder inputs. ")
 
